@@ -13,6 +13,9 @@ use std::convert::TryFrom;
 thread_local! {
     /// event log written by the scripted hooks
     static HOOK_LOG: RefCell<Vec<String>> = RefCell::new(Vec::new());
+    /// callbacks created by `hook`, by id: `hookdup` registers the *same* reference again (tracer pattern: one callback for
+    /// both phases / several mnemonics / registered twice)
+    static HOOK_CBS: RefCell<std::collections::HashMap<String, &'static (dyn Fn(&mut Axecutor, SupportedMnemonic) -> Result<HookResult, Box<dyn std::error::Error>>)>> = RefCell::new(std::collections::HashMap::new());
 }
 
 fn mnemonic_by_name(s: &str) -> Option<SupportedMnemonic> {
@@ -514,6 +517,7 @@ impl Session {
             ["hook", phase, mn, id, outcome, edit] => {
                 let m = mnemonic_by_name(mn)?;
                 let id = id.to_string();
+                let id_key = id.clone();
                 let phase_s = phase.to_string();
                 let outcome = outcome.to_string();
                 let edit: Option<(SR, u64)> = match edit.split_once('=') {
@@ -579,6 +583,18 @@ impl Session {
                         }
                     });
                 let cb: &'static _ = Box::leak(cb);
+                HOOK_CBS.with(|m| m.borrow_mut().insert(id_key, cb));
+                let ax = self.ax();
+                Some(res_unit(match *phase {
+                    "before" => ax.hook_before_mnemonic_native(m, cb),
+                    "after" => ax.hook_after_mnemonic_native(m, cb),
+                    _ => return None,
+                }))
+            }
+            ["hookdup", phase, mn, id, _label, _outcome, _edit] => {
+                // the same callback reference as the earlier `hook … <id> …` line, registered once more
+                let m = mnemonic_by_name(mn)?;
+                let cb = HOOK_CBS.with(|c| c.borrow().get(*id).copied())?;
                 let ax = self.ax();
                 Some(res_unit(match *phase {
                     "before" => ax.hook_before_mnemonic_native(m, cb),
